@@ -24,6 +24,7 @@ struct Ctx {
   struct OpBase { void (*run)(OpBase*) noexcept; OpBase* next = nullptr; };
   int id = -1;
   bool deferred = false;
+  bool honour_stop = true;                          // false: schedule() ignores the receiver's stop token
   OpBase* head = nullptr; OpBase* tail = nullptr;   // plain memory: rt runs one thread at a time
   std::atomic<int> signal{0};                       // bumped on every enqueue (owner may wait on it)
   int running = 0;                                  // >0 while an operation of this context executes
@@ -71,7 +72,7 @@ struct SchedOp : Ctx::OpBase {
     if constexpr (unifex::is_stop_never_possible_v<unifex::stop_token_type_t<Receiver&>>) {
       unifex::set_value(std::move(self->r));
     } else {
-      if (unifex::get_stop_token(self->r).stop_requested()) unifex::set_done(std::move(self->r));
+      if (self->ctx->honour_stop && unifex::get_stop_token(self->r).stop_requested()) unifex::set_done(std::move(self->r));
       else unifex::set_value(std::move(self->r));
     }
   }
